@@ -64,11 +64,13 @@ META = {
               "and orphans (duplicate_rejected, missing_parent_rejected); ObjectPath parent/name/len/From<&str> agree with repeated appended for all names without '.', "
               "including prefix-sharing and multi-byte names (parent_name_len_appended, from_str_agrees_with_appended, distinct_paths_distinct). Tied to the code by real "
               "simulations built through the public builder API whose builder answers, module vector, full callback log and parent/child/path lookups are compared with the "
-              "model and the declared-tree specification."),
+              "model and the declared-tree specification; parent()/child() and the children maps agree with the declared tree (parents_agree_with_declared_tree, children_agree_with_declared_tree, "
+              "children_map_is_declared_children, modules_are_the_declared_ones); Runtime::run over the kernel model Rt puts every at_sim_end call after all start stages and all events for any event set "
+              "and message schedule (sim_end_after_last_event, start_stages_before_events); gate paths and as_parent_str (gate_path, as_parent_str_appended)."),
         design_ref="DESIGN.md §5 C12",
-        note=("Trusted: Lean kernel; axioms propext/Classical.choice/Quot.sound; hand transcription Rust->Lean (UTF-8 strings as byte lists), validated by the correspondence runs; "
-              "harness, driver, orchestrator. 'at_sim_end after the last event' and the parent()/child() lookups are checked on observed runs, not proved. Paths with empty "
-              "segments are outside the theorems' domain (model comparison only). The model mirrors /repo after the fix of SimBuilderScoped (dotted relative paths)."),
+        note=("Trusted: Lean kernel; axioms propext/Classical.choice/Quot.sound; hand transcription Rust->Lean (UTF-8 strings as byte lists, ModuleRef as creation index, children HashMap as association list), "
+              "validated by the correspondence runs; harness, driver, orchestrator. The run model takes the callbacks' add_event calls as parameters and assumes all modules stay active during start-up "
+              "(is_active guard, C09/C13). Paths with empty segments are outside the theorems' domain (model comparison only). Model mirrors /repo after the SimBuilderScoped fix."),
         technique=_T),
     "C17": dict(
         text=("Lean 4 theorems about the model of Cfg::new (compartmentalize_map loop with swap_remove/entry/insert on ordered mappings, recursion bound proved sufficient) and "
@@ -190,8 +192,10 @@ META = {
               "with reference-count drop semantics and the destructors ModuleContext::drop=>dissolve_paths and TimerSlotEntryHandle::drop: no node is freed twice (any graph), dissolve_paths terminates on any wiring incl. rings with fuel #conn+1, dropping never errs within #roots+#edges steps, "
               "the strong edges not cut by dissolve_paths are ranked for every description of the repaired code, hence every module state, PE, task state, body and probe is freed exactly once. Tied to the code by generated real simulations x stopping points with destructor counters."),
         design_ref="DESIGN.md §5 C20",
-        note=("Partial: the tie observes counters/queue lengths/event counts only, not the reference graph; tokio drops task futures with the runtime (assumption); dissolve releases deferred. all_user_objects_freed_once has the decidable hypothesis wired d (checked by the driver per case, not proved for all d). "
-              "Witnesses: backlog_cycle_witness (pre-repair code leaks, F12, fixed in /repo), timer_bookkeeping_residue_witness (TimerQueue<->TimerSlot stays allocated, not user-visible)."),
+        note=("Partial: the tie observes counters / queue lengths / event counts only, not the reference graph; tokio drops task futures with the runtime (assumption); order-independence of plain decrements "
+              "(dissolve releases deferred in the model - plain_frees_below_gates proves no destructor below a gate removes handles). all_user_objects_freed_once holds for EVERY description of the repaired code "
+              "(every_description_is_closed discharges the closure conditions; no well-formedness hypothesis). Witnesses: backlog_cycle_witness (pre-repair code leaks, F12 fixed by c3eebb0), "
+              "timer_bookkeeping_residue_witness (TimerQueue<->TimerSlot stays allocated, not user-visible)."),
         technique=_T),
     "C09": dict(
         text=("Lean 4 theorems about the kernel model Net (scripted modules, future event set, buffered emissions flushed by buf_process, shutdown request consumed at the end of the event: deactivate, drop runtime, reset, schedule ModuleRestartEvent; "
